@@ -375,6 +375,8 @@ class Layout:
 
 
 class _LayoutInterp(FinamInterp):
+    sizes = {0: 5, 1: 4, 2: 3}  # extents per grid axis: configuration values, not program data
+
     def ext_call(self, name, args, kwargs, node):
         short = name.split(".")[-1]
         if short == "transpose" and len(args) == 1 and not kwargs and isinstance(args[0], Layout):
@@ -386,25 +388,29 @@ class _LayoutInterp(FinamInterp):
         if short == "flip" and isinstance(args[0], Layout):
             ax = kwargs.get("axis", args[1] if len(args) > 1 else None)
             if isinstance(ax, int):
+                ax = (ax,)
+            if isinstance(ax, (tuple, list)) and all(isinstance(i, int) for i in ax):
                 a = list(args[0].axes)
-                g, inc = a[ax]
-                a[ax] = (g, not inc)
+                for i in ax:
+                    g, inc = a[i]
+                    a[i] = (g, not inc)
                 return Layout(a)
             raise AnalysisError(f"np.flip with symbolic axis {ax!r}")
         if short == "ndim" and isinstance(args[0], Layout):
             return len(args[0].axes)
         if short == "shape" and isinstance(args[0], Layout):
-            return tuple(Sym("n", g) for g, _ in args[0].axes)
+            return tuple(self.sizes[g] for g, _ in args[0].axes)
         if short == "array_equal":
             a, b = args
             return list(a) == list(b)
         return super().ext_call(name, args, kwargs, node)
 
 
-def _grid_obj(repo, dim, rev, inc):
+def _grid_obj(repo, dim, rev, inc, sizes=None):
     c = repo.cls("StructuredGrid")
     g = Obj(cls=c, label=f"grid{dim}{'r' if rev else ''}")
-    shape = tuple(Sym("n", gax) for gax in (range(dim)[::-1] if rev else range(dim)))
+    sizes = sizes or _LayoutInterp.sizes
+    shape = tuple(sizes[gax] for gax in (range(dim)[::-1] if rev else range(dim)))
     g.fields.update(axes_reversed=rev, axes_increase=list(inc), data_shape=shape, dim=dim)
     return g
 
@@ -474,30 +480,46 @@ def r34_transdir(repo, sink):
     c = repo.cls("StructuredGrid")
     gt = repo.resolve(c, "get_transform_to", "method")
     worst, cases = None, 0
-    for dim in (1, 2):
-        for (r1, r2) in itertools.product((False, True), repeat=2):
-            for inc1 in itertools.product((True, False), repeat=dim):
-                for inc2 in itertools.product((True, False), repeat=dim):
-                    cases += 1
-                    g1, g2 = _grid_obj(repo, dim, r1, inc1), _grid_obj(repo, dim, r2, inc2)
-                    it = _TransInterp(repo, same=(r1 == r2 and inc1 == inc2))
-                    try:
-                        tr = it.run(gt, [g2], self_obj=g1)
-                    except (Raised, Undecided) as exc:
-                        worst = worst or f"get_transform_to raises {exc} for compatible grids"
-                        continue
-                    d1, d2 = _data_layout(dim, r1, inc1), _data_layout(dim, r2, inc2)
-                    if tr is None:
-                        if d1 != d2:
-                            worst = worst or f"no transform between different layouts {d1} -> {d2}"
-                        continue
-                    try:
-                        got = it.call(tr, [d1], {}, None, None)
-                    except Raised as r:
-                        worst = worst or f"transform {d1} -> {d2} raises {r.name}"
-                        continue
-                    if got != d2:
-                        worst = worst or f"transform of source layout {d1} yields {got}, the target grid's layout is {d2}"
+    for dim in (1, 2, 3):
+        size_sets = [dict(_LayoutInterp.sizes)] + [{**_LayoutInterp.sizes, k: 1} for k in range(dim)]
+        for sizes in size_sets:
+            for (r1, r2) in itertools.product((False, True), repeat=2):
+                incs = list(itertools.product((True, False), repeat=dim))
+                if dim == 3:
+                    incs = [i for i in incs if sum(not x for x in i) <= 1] + [(False, False, False)]
+                for inc1 in incs:
+                    for inc2 in incs:
+                        cases += 1
+                        g1, g2 = _grid_obj(repo, dim, r1, inc1, sizes), _grid_obj(repo, dim, r2, inc2, sizes)
+                        it = _TransInterp(repo, same=(r1 == r2 and inc1 == inc2))
+                        it.sizes = sizes
+                        tag = f"{dim}D extents {[sizes[k] for k in range(dim)]}"
+                        try:
+                            tr = it.run(gt, [g2], self_obj=g1)
+                        except Raised as exc:
+                            worst = worst or f"{tag}: get_transform_to raises {exc.name} for compatible grids"
+                            continue
+                        except Undecided as u:
+                            raise AnalysisError(f"get_transform_to: undecidable {u}") from u
+                        d1, d2 = _data_layout(dim, r1, inc1), _data_layout(dim, r2, inc2)
+
+                        def norm(lay):
+                            # the direction of an axis with a single entry is physically irrelevant
+                            return Layout((g, True if sizes[g] == 1 else inc) for g, inc in lay.axes)
+
+                        if tr is None:
+                            if norm(d1) != norm(d2):
+                                worst = worst or f"{tag}: no transform between different layouts {d1} -> {d2} (data is passed through unchanged)"
+                            continue
+                        try:
+                            got = it.call(tr, [d1], {}, None, None)
+                        except Raised as r:
+                            worst = worst or f"{tag}: transform {d1} -> {d2} raises {r.name}"
+                            continue
+                        except Undecided as u:
+                            raise AnalysisError(f"transform closure: undecidable {u}") from u
+                        if not isinstance(got, Layout) or norm(got) != norm(d2):
+                            worst = worst or f"{tag}: transform of source layout {d1} yields {got}, the target grid's layout is {d2}"
     sink.check(worst is None, "R34", "transform:layouts", gt, ok=f"{cases} layout pairs: transform maps the source layout onto the target layout; equal layouts pass through", bad=worst or "")
     # incompatible grids are refused
     it = _TransInterp(repo, same=False, compatible=False)
@@ -737,3 +759,45 @@ def r32b_indexspace(repo, sink):
     sink.check("points[:, 0] = axes[0][x_id" in t and "points[:, 1] = axes[1][y_id" in t and "points[:, 2] = axes[2][z_id" in t, "R32", "gen_points-columns", gp,
                ok="column k takes axis k at the k-th index grid", bad="gen_points pairs an axis with another axis' index grid")
     sink.check("axes[i] = axes[i][::-1]" in t and "if not inc:" in t, "R32", "gen_points-direction", gp, ok="decreasing axes are reversed", bad="gen_points ignores axes_increase")
+
+
+# ========================================================================== R32c
+def r32c_cellcenters(repo, sink):
+    """Cell rows are padded with -1 for meshes mixing cell types (flatten_cells documents the
+    convention): the centroid of a cell is the mean over exactly NODE_COUNT[type] node ids."""
+    f = repo.func("src/finam/data/grid_tools.py", "gen_node_centers")
+    loops = [n for n in fn_walk(f.node) if isinstance(n, ast.For)]
+    if len(loops) != 1 or not isinstance(loops[0].target, ast.Name):
+        sink.unknown("R32", "cell-centres", f, "gen_node_centers: expected one loop over the cell types")
+        return
+    ct = loops[0].target.id
+    body = loops[0]
+    sel = [n for n in walk(body) if isinstance(n, ast.Assign) and isinstance(n.value, ast.Compare) and "cell_types" in U(n.value) and ct in U(n.value)]
+    idx = [n for n in walk(body) if isinstance(n, ast.Subscript) and U(n.value).endswith(".points") and "cells" in U(n.slice)]
+    ok_sel = len(sel) == 1 and isinstance(sel[0].targets[0], ast.Name)
+    why = None
+    if not ok_sel or len(idx) != 1:
+        sink.unknown("R32", "cell-centres", f, "gen_node_centers: selection of one cell type / indexing of grid.points by grid.cells has an unknown shape")
+        return
+    else:
+        sname = sel[0].targets[0].id
+        sl = idx[0].slice
+        # grid.cells[sel][:, :NODE_COUNT[ctype]]
+        cols = sl.slice if isinstance(sl, ast.Subscript) else None
+        restricted = False
+        if isinstance(sl, ast.Subscript) and isinstance(cols, ast.Tuple) and len(cols.elts) == 2 and isinstance(cols.elts[1], ast.Slice):
+            up = cols.elts[1].upper
+            restricted = up is not None and U(up).replace(" ", "") == f"NODE_COUNT[{ct}]" and cols.elts[1].lower is None
+            rows = U(sl.value).replace(" ", "")
+            restricted = restricted and rows.endswith(f".cells[{sname}]")
+        if not restricted:
+            why = ("the node ids of a cell are not restricted to the first NODE_COUNT[type] columns: in meshes mixing cell types the "
+                   "-1 padding (= last point) is averaged into the centroid, cell centres and everything built on them (data points of "
+                   "cell data, regridding) move")
+        means = [n for n in walk(body) if isinstance(n, ast.Call) and call_name(n) == "mean"]
+        if why is None and not (means and {k.arg: U(k.value) for k in means[0].keywords}.get("axis") == "1"):
+            why = "centroid is not the mean over the node axis (axis=1)"
+        stores = [n for n in walk(body) if isinstance(n, ast.Assign) and isinstance(n.targets[0], ast.Subscript) and U(n.targets[0].slice) == sname]
+        if why is None and not stores:
+            why = "centroids are not written back to the rows of the selected cell type"
+    sink.check(why is None, "R32", "cell-centres", f, ok="centroid = mean over exactly the nodes of the cell (padding excluded), per cell type", bad=why or "")
